@@ -183,12 +183,40 @@ func zzNoSuchFAR(k *zzKernel, r zzReq) ([]nl.Msg, error) {
 	return nil, nil
 }
 
+// zzBufferingFAR: the kernel knows the FAR as buffering, related to PDR 10 whose QER is 20 - so
+// that an Update FAR with FORW/DROP walks the related PDRs and QERs (applyAction) BEFORE the update
+// request is sent; the update must still address the FAR named in the IE.
+func zzBufferingFAR(seid uint64) func(k *zzKernel, r zzReq) ([]nl.Msg, error) {
+	return func(k *zzKernel, r zzReq) ([]nl.Msg, error) {
+		if len(r.b) < 4 {
+			return nil, nil
+		}
+		attrs := r.b[4:]
+		switch r.b[0] {
+		case gtp5gnl.CMD_GET_FAR:
+			id, _ := zzFindAttr(attrs, gtp5gnl.FAR_ID, 0)
+			return zzFARMsg(seid, zzLE32(id), &zzFARRec{action: 4, pdrs: []uint16{10}}), nil
+		case gtp5gnl.CMD_GET_PDR:
+			return zzPDRMsg(seid, 10, []uint32{20}), nil
+		case gtp5gnl.CMD_GET_QER:
+			return zzQERMsg(seid, 20, 9), nil
+		}
+		return nil, nil
+	}
+}
+
 func zzC02FAR(nprofiles int, nperm int, update bool) {
 	k := zzInstallKernel()
 	k.reply = zzNoSuchFAR
 	link := nondetU32("link")
 	seid := nondetU64("seid")
 	g := zzGtp5g(link)
+	buffering := update && nondetBool("kernel-far-is-buffering")
+	if buffering {
+		k.reply = zzBufferingFAR(seid)
+		g.bsnl.Handle(&zzBufHandler{q: make(map[uint64][][]byte)})
+		zzCover("C02.far.update-of-buffering-far")
+	}
 	sp := zzFARProfile(nondetChoice("profile", nprofiles))
 	in := zzMkFAR(sp)
 	perm := zzPerm(4, nondetChoice("perm", nperm))
@@ -212,7 +240,8 @@ func zzC02FAR(nprofiles int, nperm int, update bool) {
 	cmd, flags, _ := zzOp(op)
 	zzAssert("C02.far.op", last.typ == zzFamilyID && last.flags == flags && len(last.b) >= 4 && last.b[0] == cmd)
 	for i := 0; i < n-1; i++ {
-		zzAssert("C02.far.only-get-far-before", update && k.reqs[i].b[0] == gtp5gnl.CMD_GET_FAR)
+		c := k.reqs[i].b[0]
+		zzAssert("C02.far.only-lookups-before", update && (c == gtp5gnl.CMD_GET_FAR || (buffering && (c == gtp5gnl.CMD_GET_PDR || c == gtp5gnl.CMD_GET_QER))))
 	}
 	if len(last.b) < 4 {
 		return
